@@ -21,7 +21,7 @@ def log(*a):
 
 def shrink(dom, domname, prop, case, viol_key):
     """greedy character-level minimisation for cases with a string payload under key 's'"""
-    if 's' not in case or not isinstance(case['s'], str) or not set(case) <= {'s', 'g', 'c'}:
+    if 's' not in case or not isinstance(case['s'], str) or not set(case) <= {'s', 'g', 'c'} or viol_key == 'no-result':
         return case          # cases that carry an expectation derived from the input (ground truth, expected value) are not shrunk
     cur = dict(case)
     for _ in range(12):
